@@ -309,6 +309,25 @@ func genCRC(t *rapid.T, kinds []string) crcCase {
 	if rapid.IntRange(0, 3).Draw(t, "with_prior") == 0 {
 		c.Prior = rapid.SampledFrom([]string{"success", "success", "ioerr", "partial-stall"}).Draw(t, "prior")
 		c.PriorShape = rapid.SampledFrom(cli.PriorShapes).Draw(t, "prior_shape")
+		if c.Prior == "partial-stall" && rapid.Bool().Draw(t, "noise_as_long_as_the_missing_part") {
+			// the earlier call got half of its reply and gave up; the bad reply of this call is a valid frame with exactly as many noise
+			// bytes in front as the earlier call was still waiting for (by the client's own count, and by the true length)
+			preq := c.Req
+			if r := cli.PriorShapeReq(c.PriorShape); r != nil {
+				preq = *r
+			}
+			if q, err := cat.NewRequest(spec.RTU, preq); err == nil {
+				full := device.New(77).Answer(spec.RTU, q.Bytes())
+				missing := len(full) - len(full)/2
+				if rapid.Bool().Draw(t, "by_client_count") {
+					missing = q.ExpectedResponseLength() - len(full)/2
+				}
+				if missing >= 1 && missing <= 64 {
+					c.Corr = corruption{Kind: "prepend", Data: gen.Payload(t, "pre_owed", missing)}
+					c.Cuts, c.PauseMs = nil, 0
+				}
+			}
+		}
 	}
 	return c
 }
